@@ -90,6 +90,12 @@ type Cluster struct {
 	shutdownLock sync.Mutex
 	shutdownB    bool
 	removed      bool
+
+	// stateLock protects readyB and removed. Shutdown holds
+	// shutdownLock while it waits for the goroutines collected in wg:
+	// those goroutines (ready, watchPeers) must never wait for
+	// shutdownLock.
+	stateLock sync.Mutex
 }
 
 // NewCluster builds a new IPFS Cluster peer. It initializes a LibP2P host,
@@ -500,10 +506,10 @@ func (c *Cluster) watchPeers() {
 			}
 
 			if !hasMe {
-				c.shutdownLock.Lock()
-				defer c.shutdownLock.Unlock()
 				logger.Info("peer no longer in peerset. Initiating shutdown")
+				c.stateLock.Lock()
 				c.removed = true
+				c.stateLock.Unlock()
 				go c.Shutdown(c.ctx)
 				return
 			}
@@ -637,7 +643,8 @@ This might be due to one or several causes:
     same version of IPFS-cluster.
 **************************************************
 `)
-		c.Shutdown(ctx)
+		// Shutdown waits for this goroutine: do not wait for it here.
+		go c.Shutdown(ctx)
 		return
 	case <-c.consensus.Ready(ctx):
 		// Consensus ready means the state is up to date. Every item
@@ -653,7 +660,7 @@ This might be due to one or several causes:
 	peers, err := c.consensus.Peers(ctx)
 	if err != nil {
 		logger.Error(err)
-		c.Shutdown(ctx)
+		go c.Shutdown(ctx)
 		return
 	}
 
@@ -668,10 +675,10 @@ This might be due to one or several causes:
 		}
 	}
 
-	close(c.readyCh)
-	c.shutdownLock.Lock()
+	c.stateLock.Lock()
 	c.readyB = true
-	c.shutdownLock.Unlock()
+	c.stateLock.Unlock()
+	close(c.readyCh)
 	logger.Info("** IPFS Cluster is READY **")
 }
 
@@ -705,6 +712,13 @@ func (c *Cluster) Shutdown(ctx context.Context) error {
 
 	logger.Info("shutting down Cluster")
 
+	// Whether we got ready and whether we were removed is read once:
+	// a Shutdown that started before the peer was ready treats it as not
+	// ready throughout.
+	c.stateLock.Lock()
+	ready, removed := c.readyB, c.removed
+	c.stateLock.Unlock()
+
 	// Cancel discovery service (this shutdowns announcing). Handling
 	// entries is cancelled along with the context below.
 	if c.discovery != nil {
@@ -713,7 +727,7 @@ func (c *Cluster) Shutdown(ctx context.Context) error {
 
 	// Try to store peerset file for all known peers whatsoever
 	// if we got ready (otherwise, don't overwrite anything)
-	if c.readyB {
+	if ready {
 		// Ignoring error since it's a best-effort
 		c.peerManager.SavePeerstoreForPeers(c.host.Peerstore().Peers())
 	}
@@ -722,7 +736,7 @@ func (c *Cluster) Shutdown(ctx context.Context) error {
 	// - consensus is initialized
 	// - cluster was ready (no bootstrapping error)
 	// - We are not removed already (means watchPeers() called us)
-	if c.consensus != nil && c.config.LeaveOnShutdown && c.readyB && !c.removed {
+	if c.consensus != nil && c.config.LeaveOnShutdown && ready && !removed {
 		_, err := c.consensus.Peers(ctx)
 		if err == nil {
 			// best effort
@@ -733,7 +747,10 @@ func (c *Cluster) Shutdown(ctx context.Context) error {
 			} else {
 				// Only a peer that actually left discards
 				// its consensus state below.
+				removed = true
+				c.stateLock.Lock()
 				c.removed = true
+				c.stateLock.Unlock()
 			}
 		}
 	}
@@ -747,7 +764,7 @@ func (c *Cluster) Shutdown(ctx context.Context) error {
 
 	// We left the cluster or were removed. Remove any consensus-specific
 	// state.
-	if c.removed && c.readyB {
+	if removed && ready {
 		err := c.consensus.Clean(ctx)
 		if err != nil {
 			logger.Error("cleaning consensus: ", err)
